@@ -5,7 +5,7 @@
 From Coq Require Import NArith ZArith List Bool Lia Sorting.Permutation.
 From Coq Require Import ZifyN ZifyBool.
 From Cloak Require Import Model.Reorder Model.Mux Proofs.Reorder Proofs.ReorderExt
-  Proofs.MuxBase Proofs.MuxSafety Proofs.MuxView Proofs.MuxWire Proofs.MuxEffect.
+  Proofs.MuxBase Proofs.MuxSafety Proofs.MuxView Proofs.MuxWire Proofs.MuxEffect Proofs.MuxPay.
 Import ListNotations.
 Local Open Scope N_scope.
 
@@ -27,7 +27,7 @@ Definition nE (E : list wframe) : N := N.of_nat (length E).
 
 Definition wfE (E : list wframe) : Prop :=
   forall i fr, nth_error E i = Some fr ->
-    w_seq fr = N.of_nat i /\ w_sid fr = sid /\ (w_cl fr = 0 \/ (w_cl fr = 1 /\ S i = length E)).
+    w_seq fr = N.of_nat i /\ w_sid fr = sid /\ (w_cl fr = 0 \/ (w_cl fr = 1 /\ S i = length E /\ w_pay fr = [])).
 
 Definition all_data (E : list wframe) : Prop := forall fr, In fr E -> w_cl fr = 0.
 
@@ -76,7 +76,7 @@ Proof.
   { assert (E = []) by (rewrite <- (rev_involutive E), Er; reflexivity). subst E. destruct (N.to_nat i); discriminate. }
   assert (HE : E = rev t ++ [lst]) by (rewrite <- (rev_involutive E), Er; reflexivity).
   assert (Hlen : length E = S (length t)) by (rewrite HE, app_length, rev_length; cbn; lia).
-  destruct H3 as [H0|[H1' Hlast]].
+  destruct H3 as [H0|(H1' & Hlast & _)].
   - rewrite H0. cbn. destruct (w_cl lst =? 0) eqn:E0; [unfold nE in *; lia|].
     (* i is not the last index, else fr = lst and cl = 0 *)
     destruct (N.eq_dec i (nE E - 1)) as [Heq|Hne]; [|lia].
@@ -295,7 +295,7 @@ Proof. induction a as [|x t IH]; cbn; [auto|]. intros H. inversion H; auto. Qed.
 Lemma nodup_app_l {A} (a b : list A) : NoDup (a ++ b) -> NoDup a.
 Proof. induction a as [|x t IH]; cbn; [constructor|]. intros H. inversion H as [|? ? Hn Ht]; subst. constructor; [|apply IH; exact Ht]. intros Hx. apply Hn. apply in_or_app. now left. Qed.
 
-Lemma wfE_app E fr : wfE E -> all_data E -> w_seq fr = nE E -> w_sid fr = sid -> (w_cl fr = 0 \/ w_cl fr = 1) ->
+Lemma wfE_app E fr : wfE E -> all_data E -> w_seq fr = nE E -> w_sid fr = sid -> (w_cl fr = 0 \/ (w_cl fr = 1 /\ w_pay fr = [])) ->
   wfE (E ++ [fr]).
 Proof.
   intros Hw Had Hseq Hsid Hcl i f Hn.
@@ -306,7 +306,7 @@ Proof.
     destruct (i - length E)%nat as [|m] eqn:Em; [|destruct m; discriminate]. cbn in Hn. injection Hn as <-.
     assert (i = length E) by lia. subst i.
     split; [unfold nE in Hseq; exact Hseq|split; [exact Hsid|]].
-    destruct Hcl as [H0|H1]; [left; exact H0|right; split; [exact H1|rewrite app_length; cbn; lia]].
+    destruct Hcl as [H0|[H1 H2]]; [left; exact H0|right; split; [exact H1|split; [rewrite app_length; cbn; lia|exact H2]]].
 Qed.
 
 Lemma genuine_app E fr l : genuine E l -> w_seq fr = nE E -> genuine (E ++ [fr]) (fr :: l).
@@ -576,4 +576,155 @@ Proof.
   replace (rview (init k sp u ta tb)) with (@None (rbuf * bool)); [now constructor|].
   unfold MuxView.rview. destruct s; reflexivity.
 Qed.
+
+(* ---- reading the invariant ---- *)
+Lemma firstn_S_nth {A} (l : list A) k x : nth_error l k = Some x -> firstn (S k) l = firstn k l ++ [x].
+Proof. revert k; induction l as [|a t IH]; intros [|k] H; cbn in *; try discriminate.
+  - injection H as ->. reflexivity.
+  - now rewrite (IH _ H). Qed.
+
+Lemma cat_FE E : forall k, (k <= length E)%nat -> cat (FE E) 0 k = flat_map w_pay (firstn k E).
+Proof.
+  induction k as [|k IH]; intros Hk; [reflexivity|].
+  rewrite cat_snoc', IH by lia. cbn [N.add].
+  destruct (nth_error E k) as [fr|] eqn:En; [|apply nth_error_None in En; lia].
+  rewrite (firstn_S_nth _ _ _ En), flat_map_app. cbn. rewrite app_nil_r. f_equal.
+  unfold P, FE, nthf. rewrite Nat2N.id, En. reflexivity.
+Qed.
+
+(* all bytes carried by the data frames emitted so far, in emission order *)
+Definition data_bytes (E : list wframe) : list N := flat_map w_pay (firstn (N.to_nat (ndata E)) E).
+
+Lemma ndata_le E : ndata E <= nE E.
+Proof. unfold ndata. destruct (_ =? _); lia. Qed.
+
+Lemma firstn_prefix {A} (l : list A) a b : (a <= b)%nat -> exists t, firstn b l = firstn a l ++ t.
+Proof.
+  revert a b; induction l as [|x l IH]; intros a b H.
+  - exists []. now rewrite !firstn_nil.
+  - destruct a as [|a]; [exists (firstn b (x :: l)); reflexivity|].
+    destruct b as [|b]; [lia|]. destruct (IH a b) as (t & Ht); [lia|]. exists t. cbn. now rewrite Ht.
+Qed.
+
+Theorem PD_read_prefix y E Rd :
+  PD y E Rd [] -> nE E + 1 < two64 -> exists tail, data_bytes E = Rd ++ tail.
+Proof.
+  intros (Hw & Hs & Hn & Hg & Hnd & Hr) Hb.
+  assert (Hk : exists k rest, N.of_nat k <= ndata E /\ cat (FE E) 0 k = Rd ++ rest).
+  { remember (rview y) as rv. clear Heqrv.
+    destruct Hr as [Hr0|rb A Hp HI HA Hd|rb Hp Hc Ho Hi|rb k Hp Hk Ho].
+    - exists 0%nat, []. subst Rd. split; [lia|reflexivity].
+    - destruct (Inv_next_bound _ _ _ _ HI HA Hb) as (k & Hk1 & Hk2). exists k, (pipe rb). auto.
+    - exists (N.to_nat (ndata E)), (pipe rb). split; [lia|auto].
+    - exists k, (pipe rb). auto. }
+  destruct Hk as (k & rest & Hk & Hc).
+  pose proof (ndata_le E) as Hle.
+  rewrite cat_FE in Hc by (unfold nE in *; lia).
+  destruct (firstn_prefix E k (N.to_nat (ndata E))) as (t & Ht); [lia|].
+  exists (rest ++ flat_map w_pay t). unfold data_bytes. rewrite Ht, flat_map_app, Hc, app_assoc. reflexivity.
+Qed.
+
+Theorem PD_numbering y E Rd : PD y E Rd [] ->
+  forall i fr, nth_error E i = Some fr ->
+    w_seq fr = N.of_nat i /\ w_sid fr = sid /\ (w_cl fr = 0 \/ (w_cl fr = 1 /\ S i = length E /\ w_pay fr = [])).
+Proof. intros (Hw & _). exact Hw. Qed.
+
+(* an open sender has numbered exactly the frames that are on the wire, all of them data *)
+Theorem PD_sender_open y E Rd q w : PD y E Rd [] -> sview y = Some (q, w, false) -> q = nE E /\ all_data E.
+Proof. intros (_ & Hs & _) Hsv. destruct (Hs _ _ Hsv) as (H1 & _ & H3). auto. Qed.
+
+Lemma data_bytes_all E : wfE E -> data_bytes E = flat_map w_pay E.
+Proof.
+  intros Hw. unfold data_bytes, ndata.
+  destruct (cl_of E =? two64) eqn:Ec.
+  - unfold nE. rewrite Nat2N.id, firstn_all. reflexivity.
+  - unfold cl_of in Ec. destruct (rev E) as [|lst t] eqn:Er; [cbn in Ec; lia|].
+    assert (HE : E = rev t ++ [lst]) by (rewrite <- (rev_involutive E), Er; reflexivity).
+    destruct (w_cl lst =? 0) eqn:E0; [lia|].
+    assert (Hlen : length E = S (length t)) by (rewrite HE, app_length, rev_length; cbn; lia).
+    assert (Hn : nth_error E (length t) = Some lst).
+    { rewrite HE, nth_error_app2; rewrite rev_length; [|lia]. now rewrite Nat.sub_diag. }
+    destruct (Hw _ _ Hn) as (_ & _ & [H0|(_ & _ & Hp)]); [lia|].
+    replace (N.to_nat (nE E - 1)) with (length (rev t)) by (unfold nE; rewrite rev_length; lia).
+    clear Hn Hlen. rewrite HE. rewrite firstn_app, firstn_all, Nat.sub_diag. cbn [firstn]. rewrite app_nil_r.
+    rewrite flat_map_app. cbn. now rewrite Hp, !app_nil_r.
+Qed.
+
+Notation run_written := (run_written s sid).
+
+Lemma run_payload ls : forall y y' os E Rd,
+  run y ls = (y', os) -> WF y -> PD y E Rd [] -> fresh_run y ls ->
+  nE (E ++ run_frames os) + 2 < two64 ->
+  flat_map w_pay (run_frames os) = run_written ls os.
+Proof.
+  induction ls as [|[l ch] t IH]; intros y y' os E Rd H Hwf Hpd Hfr Hb; cbn in H.
+  - injection H as <- <-. reflexivity.
+  - destruct (step y l ch) as [y1 o1] eqn:Es. destruct (run y1 t) as [y2 os2] eqn:Er. injection H as <- <-.
+    cbn [run_frames MuxPay.run_written]. rewrite flat_map_app. cbn [run_frames] in Hb. rewrite app_assoc in Hb.
+    destruct Hfr as [Hf1 Hf2]. rewrite Es in Hf2. cbn [fst] in Hf2.
+    assert (Hw0 : forall q w, sview y = Some (q, w, false) -> w = 0).
+    { intros q w Hsv. destruct Hpd as (_ & Hs & _). destruct (Hs _ _ Hsv) as (_ & -> & _). reflexivity. }
+    rewrite (step_payload s sid _ _ _ _ _ Es Hwf Hw0). f_equal.
+    assert (Hb1 : nE (E ++ ev_frames o1) + 2 < two64).
+    { pose proof (nE_app_le E (ev_frames o1) (run_frames os2)). rewrite <- app_assoc in Hb. lia. }
+    eapply (IH y1); [exact Er|eapply step_WF; eauto|eapply PD_label; eauto|exact Hf2|exact Hb].
+Qed.
 End Data.
+
+(* ---- statements over every label sequence from the initial state ---- *)
+Section Reach.
+Variables (k : nat) (sp : bool) (u : N) (ta tb : Z).
+
+Definition outputs (ls : list (label * list N)) : list (list ev) := snd (run (init k sp u ta tb) ls).
+
+Theorem reach_PD s sid ls :
+  fresh_run (init k sp u ta tb) ls ->
+  nE (run_frames s sid (outputs ls)) + 2 < two64 ->
+  PD s sid (reach k sp u ta tb ls) (run_frames s sid (outputs ls)) (run_reads s sid ls (outputs ls)) [].
+Proof.
+  intros Hf Hb. unfold reach, outputs in *. destruct (run (init k sp u ta tb) ls) as [y os] eqn:Er. cbn [fst snd] in *.
+  pose proof (PD_run s sid ls _ _ _ [] [] Er (init_WF _ _ _ _ _) (PD_init s sid _ _ _ _ _) Hf) as H.
+  cbn [app] in H. apply H. exact Hb.
+Qed.
+
+(* C13: in each direction of each stream the frames put on the wire are numbered 0,1,2,... in
+   emission order, each number once; a closing frame, if any, is the last one *)
+Theorem frames_numbered s sid ls :
+  fresh_run (init k sp u ta tb) ls ->
+  nE (run_frames s sid (outputs ls)) + 2 < two64 ->
+  forall i fr, nth_error (run_frames s sid (outputs ls)) i = Some fr ->
+    w_seq fr = N.of_nat i /\ w_sid fr = sid /\
+    (w_cl fr = 0 \/ (w_cl fr = 1 /\ S i = length (run_frames s sid (outputs ls)) /\ w_pay fr = [])).
+Proof. intros Hf Hb. eapply PD_numbering. apply reach_PD; assumption. Qed.
+
+(* C01 / C12 (prefix part): whatever happens - any arrival order across connections, faults,
+   closes by anybody, timers - what the reader of a stream has been given is a prefix of the bytes
+   the data frames of the writer carry, in order *)
+Theorem reads_are_prefix s sid ls :
+  fresh_run (init k sp u ta tb) ls ->
+  nE (run_frames s sid (outputs ls)) + 2 < two64 ->
+  exists tail, data_bytes (run_frames s sid (outputs ls)) = run_reads s sid ls (outputs ls) ++ tail.
+Proof. intros Hf Hb. eapply PD_read_prefix; [apply reach_PD; assumption|lia]. Qed.
+
+(* C13 / C01: the data frames of a direction carry, in emission order, exactly the bytes the
+   writes on that stream reported as accepted *)
+Theorem frames_carry_written s sid ls :
+  fresh_run (init k sp u ta tb) ls ->
+  nE (run_frames s sid (outputs ls)) + 2 < two64 ->
+  data_bytes (run_frames s sid (outputs ls)) = run_written s sid ls (outputs ls).
+Proof.
+  intros Hf Hb. pose proof (reach_PD s sid ls Hf Hb) as Hpd.
+  rewrite (data_bytes_all sid); [|destruct Hpd as (Hw & _); exact Hw].
+  unfold outputs in *. destruct (run (init k sp u ta tb) ls) as [y os] eqn:Er. cbn [snd] in *.
+  eapply (run_payload s sid ls _ _ _ [] []); [exact Er|apply init_WF|apply PD_init|exact Hf|exact Hb].
+Qed.
+
+(* C01: what the reader of a stream has been given is a prefix of what the writer's writes accepted *)
+Theorem reads_prefix_of_written s sid ls :
+  fresh_run (init k sp u ta tb) ls ->
+  nE (run_frames s sid (outputs ls)) + 2 < two64 ->
+  exists tail, run_written s sid ls (outputs ls) = run_reads s sid ls (outputs ls) ++ tail.
+Proof.
+  intros Hf Hb. rewrite <- (frames_carry_written s sid ls Hf Hb). apply reads_are_prefix; assumption.
+Qed.
+End Reach.
